@@ -28,6 +28,14 @@ THEOREMS = ["RootSim.C06.invariant_inductive", "RootSim.C06.reach_good",
             "RootSim.C06.id_collision_at_max_threads"]
 
 
+# LP level: ALL dispatch branches of process_msg (Model/LPFull.lean = the function Driver/Run.lean executes on every `ext` line)
+THEOREMS_LP = ["RootSim.C06LP.step_preserves_wf", "RootSim.C06LP.step_state_is_fold", "RootSim.C06LP.step_defined",
+               "RootSim.C06LP.anti_removes_exactly_target", "RootSim.C06LP.remote_anti_removes_exactly_target",
+               "RootSim.C06LP.remote_cancel_any_order", "RootSim.C06LP.remote_pair_status",
+               "RootSim.C06LP.early_list_exact", "RootSim.C06LP.early_list_exact_of_inputs",
+               "RootSim.C06LP.check_early_removes_exactly_one", "RootSim.C06LP.check_early_no_match"]
+
+
 VK = {1: "EXTRACT", 2: "FORWARD", 4: "ANTI_LOCAL", 6: "UNPROCESS", 7: "FOSSIL_FREE", 9: "FINI_ENTRY", 10: "MSG_ALLOC",
       11: "MSG_FREE", 17: "SEND_LOCAL", 20: "ANTI_DISCARD", 24: "DEQUEUE"}
 
@@ -229,6 +237,7 @@ def run(ctx):
         ctx.axiom_audit("RootSim.Props.C06", THEOREMS)
         if ctx.tier == "thorough":
             ctx.leanchecker("RootSim.Props.C06")
+    runlib.lean_part(ctx, "RootSim.Props.C06LP", THEOREMS_LP)
     # driver regression corpus
     rows = [l.rstrip("\n") for l in open(os.path.join(vlib.VERIF, "corpus", "c06_msgauto_traces.txt"))
             if l.strip() and not l.startswith("#")]
